@@ -15,20 +15,23 @@ variable {F : Type}
 
 theorem kind_roundtrip : ∀ k, k < 4 → kindOfName (kindName k) = some k := by decide
 
-theorem decFloats_map (xs : List F) : decFloats (xs.map Val.flt) = .ok xs := by
+theorem decFloats_map (f : F → F) (xs : List F) (hf : ∀ x ∈ xs, f x = x) :
+    decFloats f (xs.map Val.flt) = .ok xs := by
   induction xs with
   | nil => rfl
-  | cons x xs ih => simp [decFloats, ih]
+  | cons x xs ih =>
+    simp [decFloats, ih (fun y hy => hf y (List.mem_cons_of_mem _ hy)), hf x List.mem_cons_self]
 
-theorem decTrait_enc (K : Consts F) (t : Trait F) (h : t.params.length = numTraitParams) :
-    decTrait K (encTrait t) = .ok t := by
+theorem decTrait_enc (K : Consts F) (t : Trait F) (h : t.params.length = numTraitParams)
+    (hs : ∀ x ∈ t.params, K.yf x = x) : decTrait K (encTrait t) = .ok t := by
   cases t with
   | mk id params =>
-    simp only at h
-    simp [decTrait, encTrait, get, decFloats_map, h]
+    simp only at h hs
+    simp [decTrait, encTrait, get, decFloats_map K.yf params hs, h]
 
 theorem decTraits_enc (K : Consts F) (ts acc : List (Trait F))
     (hlen : ∀ t ∈ ts, t.params.length = numTraitParams)
+    (hst : ∀ t ∈ ts, ∀ x ∈ t.params, K.yf x = x)
     (hnd : ((acc ++ ts).map (·.id)).Nodup) :
     decTraits K acc (ts.map encTrait) = .ok (acc ++ ts) := by
   induction ts generalizing acc with
@@ -38,9 +41,10 @@ theorem decTraits_enc (K : Consts F) (ts acc : List (Trait F))
       simp only [List.map_append, List.map_cons, List.nodup_append, List.nodup_cons] at hnd
       intro hmem
       exact hnd.2.2 _ hmem _ List.mem_cons_self rfl
-    simp only [List.map_cons, decTraits, decTrait_enc K t (hlen t List.mem_cons_self),
+    simp only [List.map_cons, decTraits, decTrait_enc K t (hlen t List.mem_cons_self) (hst t List.mem_cons_self),
       traitWithId_none_of_not_mem hnew]
-    have := ih (acc ++ [t]) (fun t' ht' => hlen t' (List.mem_cons_of_mem _ ht')) (by simpa [List.append_assoc] using hnd)
+    have := ih (acc ++ [t]) (fun t' ht' => hlen t' (List.mem_cons_of_mem _ ht'))
+      (fun t' ht' => hst t' (List.mem_cons_of_mem _ ht')) (by simpa [List.append_assoc] using hnd)
     simpa [List.append_assoc] using this
 
 theorem actOfName_of_match (C : Codec F) (hA : ActsRoundTrip C) {a : Nat}
@@ -78,22 +82,24 @@ theorem decNodes_enc (C : Codec F) (hA : ActsRoundTrip C) (traits : List (Trait 
     have := ih (acc ++ [n]) (fun n' hn' => hok n' (List.mem_cons_of_mem _ hn')) (by simpa [List.append_assoc] using hnd)
     simpa [List.append_assoc] using this
 
-theorem decGene_enc (traits : List (Trait F)) (nodes : List Node) (g : Gene F)
-    (h : geneOK traits nodes g = true) : decGene traits nodes (encGene g) = .ok g := by
+theorem decGene_enc (K : Consts F) (traits : List (Trait F)) (nodes : List Node) (g : Gene F)
+    (h : geneOK traits nodes g = true) (hw : K.yf g.w = g.w) (hm : K.yf g.mnum = g.mnum) :
+    decGene K traits nodes (encGene g) = .ok g := by
   simp only [geneOK, Bool.and_eq_true] at h
   obtain ⟨⟨href, hs⟩, hd⟩ := h
   cases g with
   | mk inn src dst recur w mnum en trait =>
-    simp only at href hs hd
-    simp [decGene, encGene, get, hs, hd, traitRef_of_refOK href]
+    simp only at href hs hd hw hm
+    simp [decGene, encGene, get, hs, hd, hw, hm, traitRef_of_refOK href]
 
-theorem decGenes_enc (traits : List (Trait F)) (nodes : List Node) (gs : List (Gene F))
-    (h : ∀ g ∈ gs, geneOK traits nodes g = true) : decGenes traits nodes (gs.map encGene) = .ok gs := by
+theorem decGenes_enc (K : Consts F) (traits : List (Trait F)) (nodes : List Node) (gs : List (Gene F))
+    (h : ∀ g ∈ gs, geneOK traits nodes g = true) (hst : ∀ g ∈ gs, K.yf g.w = g.w ∧ K.yf g.mnum = g.mnum) :
+    decGenes K traits nodes (gs.map encGene) = .ok gs := by
   induction gs with
   | nil => rfl
   | cons g gs ih =>
-    simp [decGenes, decGene_enc traits nodes g (h g List.mem_cons_self),
-      ih (fun g' hg' => h g' (List.mem_cons_of_mem _ hg'))]
+    simp [decGenes, decGene_enc K traits nodes g (h g List.mem_cons_self) (hst g List.mem_cons_self).1 (hst g List.mem_cons_self).2,
+      ih (fun g' hg' => h g' (List.mem_cons_of_mem _ hg')) (fun g' hg' => hst g' (List.mem_cons_of_mem _ hg'))]
 
 theorem decWires_enc [DecidableEq F] (K : Consts F) (nodes : List Node) (ws : List (Wire F)) (i : Nat)
     (h : ∀ w ∈ ws, wireOK K nodes w = true) : decWires K nodes (encWires i ws) = .ok ws := by
@@ -111,7 +117,7 @@ theorem decWires_enc [DecidableEq F] (K : Consts F) (nodes : List Node) (ws : Li
       simp [encWires, decWires, get, hne, hmem, ih (i + 1) (fun w' hw' => h w' (List.mem_cons_of_mem _ hw'))]
 
 theorem decModule_enc [DecidableEq F] (C : Codec F) (hA : ActsRoundTrip C) (K : Consts F) (traits : List (Trait F))
-    (nodes : List Node) (m : Module F) (h : moduleOK C K traits nodes m = true) :
+    (nodes : List Node) (m : Module F) (h : moduleOK C K traits nodes m = true) (hst : K.yf m.mnum = m.mnum) :
     decModule C K traits nodes (encModule C m) = .ok m := by
   simp only [moduleOK, Bool.and_eq_true, beq_iff_eq, Bool.not_eq_true', List.all_eq_true] at h
   obtain ⟨⟨⟨⟨⟨hk, href⟩, hact⟩, _⟩, hins⟩, houts⟩ := h
@@ -120,13 +126,14 @@ theorem decModule_enc [DecidableEq F] (C : Codec F) (hA : ActsRoundTrip C) (K : 
   | mk inn mnum en ctrl ins outs =>
     cases ctrl with
     | mk id kind act trait =>
-      simp only at hk href hnm hback hins houts
+      simp only at hk href hnm hback hins houts hst
       subst hk
-      simp [decModule, encModule, get, hnm, hback, traitRef_of_refOK href,
+      simp [decModule, encModule, get, hnm, hback, hst, traitRef_of_refOK href,
         decWires_enc K nodes ins 0 hins, decWires_enc K nodes outs 0 houts]
 
 theorem decModules_enc [DecidableEq F] (C : Codec F) (hA : ActsRoundTrip C) (K : Consts F) (traits : List (Trait F))
-    (nodes : List Node) (ms : List (Module F)) (h : ∀ m ∈ ms, moduleOK C K traits nodes m = true) :
+    (nodes : List Node) (ms : List (Module F)) (h : ∀ m ∈ ms, moduleOK C K traits nodes m = true)
+    (hst : ∀ m ∈ ms, K.yf m.mnum = m.mnum) :
     decModules C K traits nodes (ms.map (encModule C)) = .ok ms := by
   induction ms with
   | nil => rfl
@@ -135,8 +142,8 @@ theorem decModules_enc [DecidableEq F] (C : Codec F) (hA : ActsRoundTrip C) (K :
     have hfresh : nodes.any (·.id == m.ctrl.id) = false := by
       simp only [moduleOK, Bool.and_eq_true, Bool.not_eq_true'] at hm
       exact hm.1.1.2
-    simp [decModules, decModule_enc C hA K traits nodes m hm, hfresh,
-      ih (fun m' hm' => h m' (List.mem_cons_of_mem _ hm'))]
+    simp [decModules, decModule_enc C hA K traits nodes m hm (hst m List.mem_cons_self), hfresh,
+      ih (fun m' hm' => h m' (List.mem_cons_of_mem _ hm')) (fun m' hm' => hst m' (List.mem_cons_of_mem _ hm'))]
 
 /-! ### gob -/
 
